@@ -24,7 +24,9 @@ THEOREMS = ["LNN.C15_get_after_add",
             "LNN.C15_reject_kind",
             "LNN.C15_reject_kind_entry",
             "LNN.C15_checked_spec",
-            "LNN.C15_checked_spec_single"]
+            "LNN.C15_checked_spec_single",
+            "LNN.C15_assertAll_rows",
+            "LNN.C15_flush_reads"]
 MODULES = ["LnnVerif.Props.C15"]
 FACETS = {"tables", "errors", "bounds", "state", None}
 
